@@ -11,6 +11,9 @@ Input lines (one answer line each; `ok n=<size of the τ-closed state set>` or `
                                              accepted once `Close` has been called)
 * `adv to=<ns>`                             the clock moves
 * `scall` / `sret`                          `Subscribe(ctx, ch)` called / returned
+* `scalld`                                  `Subscribe(ctx, ch)` called with a context that has already ended (or is
+                                             being cancelled concurrently: every behaviour of a later cancel is also a
+                                             behaviour of a forwarder that finds `ctx.Done()` ready from the start)
 * `cancel sub=<i>`                          subscriber `i`'s context is cancelled
 * `recv sub=<i> v=<v>`                      the reader of subscriber `i` received `v`
 * `chclosed sub=<i>`                        the reader of subscriber `i` saw its channel closed
@@ -113,7 +116,7 @@ def cpcName : ClosePc → String
 
 def showState (s : Batcher.State) : String :=
   let q := ",".intercalate (s.p.q.map fun r => s!"k{r.key}={r.val}@{r.time}")
-  s!"q:{q};now:{s.p.now};timer:{s.p.timer};pc:{pcName s.p.pc};qclose:{cpcName s.p.cpc};reset:{s.p.reset};epc:{epcName s.epc};closed:{s.closed};close(q/l/w/r):{s.cq}/{s.cl}/{s.cw}/{s.cr};waitS:{s.waitS};retS:{s.retS};subs:{"".intercalate (s.subs.map showSub)}"
+  s!"q:{q};now:{s.p.now};timer:{s.p.timer};pc:{pcName s.p.pc};qclose:{cpcName s.p.cpc};reset:{s.p.reset};epc:{epcName s.epc};closed:{s.closed};close(q/l/w/r):{s.cq}/{s.cl}/{s.cw}/{s.cr};waitS:{s.waitS}+{s.waitSD};retS:{s.retS};subs:{"".intercalate (s.subs.map showSub)}"
 
 /-- Successors of one state under one observable event; `none` = malformed line. -/
 def onEvent (d : D) (l : Line) (s : Batcher.State) : Option (List Batcher.State) :=
@@ -128,6 +131,7 @@ def onEvent (d : D) (l : Line) (s : Batcher.State) : Option (List Batcher.State)
     let t ← l.int? "to"
     return (Batcher.step cfg s (.proc (.advance t))).toList
   | "scall" => some (Batcher.step cfg s .subCall).toList
+  | "scalld" => some (Batcher.step cfg s .subCallDone).toList
   | "sret" => some (Batcher.step cfg s .subReturn).toList
   | "cancel" => do
     let i ← l.nat? "sub"
@@ -194,7 +198,7 @@ def onEvent (d : D) (l : Line) (s : Batcher.State) : Option (List Batcher.State)
   | _ => none
 
 def pendingWork (s : Batcher.State) : Bool :=
-  s.epc != .idle || s.waitS > 0 || s.cq + s.cl + s.cw > 0 || (s.p.cpc != .idle && s.p.cpc != .returned) ||
+  s.epc != .idle || s.waitS + s.waitSD > 0 || s.cq + s.cl + s.cw > 0 || (s.p.cpc != .idle && s.p.cpc != .returned) ||
   s.p.q.any (fun r => r.time ≤ s.p.now)
 
 def handle (d : D) (raw : String) : D × String :=
